@@ -114,7 +114,9 @@ func UpdateGuards(u Update, base Item, env Env, keyAttrs []string) []string {
 					continue
 				}
 				for _, t := range targets {
-					if t.idx != n && pathOverlap(rp, t.rp) {
+					// list positions are compared loosely: a SET past the end
+					// of a list appends, so it may land on any later index
+					if t.idx != n && pathOverlapLoose(rp, t.rp) {
 						ids = append(ids, "F-SETORDER")
 					}
 				}
@@ -136,4 +138,21 @@ func UpdateGuards(u Update, base Item, env Env, keyAttrs []string) []string {
 		}
 	}
 	return ids
+}
+
+// pathOverlapLoose is pathOverlap with every list index matching every other.
+func pathOverlapLoose(a, b []ResolvedElem) bool {
+	n := len(a)
+	if len(b) < n {
+		n = len(b)
+	}
+	for i := 0; i < n; i++ {
+		if a[i].IsIndex != b[i].IsIndex {
+			return false
+		}
+		if !a[i].IsIndex && a[i].Name != b[i].Name {
+			return false
+		}
+	}
+	return true
 }
